@@ -9,6 +9,7 @@ mod prop;
 mod props;
 mod refscan;
 mod rng;
+mod sanit;
 mod seeds;
 mod sup;
 
@@ -112,5 +113,5 @@ fn main() {
 
 pub fn make_ctx(tier: Tier, seed: u64, work_dir: PathBuf) -> Ctx {
     let seeds = seeds::load(&work_dir.join("seeds"));
-    Ctx { seed, tier, seeds: Arc::new(seeds), cli_bin: verif_root().join("target/cli/release/pasfmt"), work_dir }
+    Ctx { seed, tier, seeds: Arc::new(seeds), cli_bin: std::env::var_os("VERIF_CLI_BIN").map(PathBuf::from).unwrap_or_else(|| verif_root().join("target/cli/release/pasfmt")), work_dir }
 }
